@@ -4,6 +4,7 @@ import (
 	"bytes"
 	"crypto/sha256"
 	"fmt"
+	"github.com/holiman/uint256"
 	"math/big"
 	"sort"
 
@@ -81,6 +82,34 @@ type oFrame struct {
 	steps     int    // instructions executed by the frame's own code
 	firesPre  int    // Aspect invocations of the pre join point that reached the Aspect runtime
 	firstGas  uint64
+	hasPost   bool   // an Aspect of the post join point was invoked
+	postFail  bool   // ... and the last one invoked failed
+	lastPost  uint64 // gas the last post-join-point Aspect left
+}
+
+type jKey struct {
+	acct   common.Address
+	slot   uint256.Int
+	off    uint256.Int
+	hasOff bool
+	ty     common.Hash
+}
+
+func keysOf(m map[uint64][][]byte) []uint64 {
+	var r []uint64
+	for k := range m {
+		r = append(r, k)
+	}
+	sort.Slice(r, func(i, j int) bool { return r[i] < r[j] })
+	return r
+}
+func keysOfB(m map[uint64]bool) []uint64 {
+	var r []uint64
+	for k := range m {
+		r = append(r, k)
+	}
+	sort.Slice(r, func(i, j int) bool { return r[i] < r[j] })
+	return r
 }
 
 type oNode struct {
@@ -121,6 +150,7 @@ func frameOracles(cs *exCase, run *exRun, transfers []transferObs, digest0, dige
 	var stack []*oFrame
 	var nodes []oNode
 	var nodeStack []int
+	jWant := map[jKey]map[uint64]bool{}
 	curNode := func() int {
 		if len(nodeStack) == 0 {
 			return -1
@@ -245,6 +275,20 @@ func frameOracles(cs *exCase, run *exRun, transfers []transferObs, digest0, dige
 			if !cs.JP && len(f.providers) > 0 {
 				add("C05", "a join point fired with join points switched off")
 			}
+			// C06: what the post join point leaves is what the caller gets back; a failing post join point (never a
+			// revert by identity) fails the frame and forfeits its gas; so does a callee error other than revert
+			if f.hasPost {
+				switch {
+				case f.postFail && !e.HasErr:
+					add("C06", "call to %x: the post join point failed but the frame reports success", f.open.To[17:])
+				case f.postFail && e.Used != f.open.Gas:
+					add("C06", "call to %x: the post join point failed (not a revert) but the frame hands back %d of %d gas", f.open.To[17:], f.open.Gas-e.Used, f.open.Gas)
+				case !f.postFail && (!e.HasErr || e.ErrIsRevert) && e.Used != f.open.Gas-f.lastPost:
+					add("C06", "call to %x: the post join point left %d gas but the frame hands back %d", f.open.To[17:], f.lastPost, f.open.Gas-e.Used)
+				case !f.postFail && e.HasErr && !e.ErrIsRevert && e.Used != f.open.Gas:
+					add("C06", "call to %x: the frame failed (%s) but hands back %d gas", f.open.To[17:], e.Err, f.open.Gas-e.Used)
+				}
+			}
 			if f.hasPre && !f.preFailed && f.steps > 0 && f.firstGas != f.lastPre {
 				add("C06", "callee %x starts with %d gas, its pre join point left %d", f.open.To[17:], f.firstGas, f.lastPre)
 			}
@@ -268,6 +312,8 @@ func frameOracles(cs *exCase, run *exRun, transfers []transferObs, digest0, dige
 			f := stack[len(stack)-1]
 			if e.Create {
 				f.firesPre++
+			} else {
+				f.hasPost, f.postFail, f.lastPost = true, e.HasErr, e.ResGas
 			}
 			from, to, data, value, idx, _, ok := firePayload(e)
 			if !ok {
@@ -301,6 +347,27 @@ func frameOracles(cs *exCase, run *exRun, transfers []transferObs, digest0, dige
 				f.steps++
 			}
 			faulted := i+1 < len(evs) && evs[i+1].Kind == "fault" && evs[i+1].Pc == e.Pc && evs[i+1].Depth == e.Depth
+			// C10: a journaled change belongs to (account whose storage the code operates on, innermost CALL/CREATE node)
+			if (e.Op == 0xe6 || e.Op == 0xe7) && !faulted {
+				n := len(e.Stack)
+				var k jKey
+				okk := false
+				if e.Op == 0xe6 && n >= 4 {
+					k, okk = jKey{acct: e.Self, slot: e.Stack[n-1], off: e.Stack[n-2], hasOff: true, ty: common.Hash(e.Stack[n-4].Bytes32())}, true
+				} else if e.Op == 0xe7 && n >= 2 {
+					k, okk = jKey{acct: e.Self, slot: e.Stack[n-1], ty: common.Hash(e.Stack[n-2].Bytes32())}, true
+				}
+				if okk {
+					idx := curNode()
+					if idx < 0 {
+						idx = 0
+					}
+					if jWant[k] == nil {
+						jWant[k] = map[uint64]bool{}
+					}
+					jWant[k][uint64(idx)] = true
+				}
+			}
 			n := len(e.Stack)
 			isCall := e.Op == 0xf1 || e.Op == 0xf2 || e.Op == 0xf4 || e.Op == 0xfa
 			isCreate := e.Op == 0xf0 || e.Op == 0xf5
@@ -374,6 +441,32 @@ func frameOracles(cs *exCase, run *exRun, transfers []transferObs, digest0, dige
 	}
 	if tree.FindCall(uint64(len(nodes))) != nil {
 		add("C08", "the call tree has more nodes than calls were attempted (%d)", len(nodes))
+	}
+
+	// ---- C10: call indices under which each journaled variable has entries = the frames that journaled it
+	for k, want := range jWant {
+		var off *uint256.Int
+		if k.hasOff {
+			o := k.off
+			off = &o
+		}
+		slot := k.slot
+		ch, err := tr.StateChanges().Slot(k.acct, &slot, off, k.ty)
+		if err != nil || ch == nil {
+			add("C10", "account %x slot %s: journal instructions succeeded but no change list is found (%v)", k.acct[17:], slot.Hex(), err)
+			continue
+		}
+		got := ch.Changes()
+		for idx := range want {
+			if _, ok := got[idx]; !ok {
+				add("C10", "account %x slot %s: a frame under call %d journaled a change, but the entries are filed under calls %v", k.acct[17:], slot.Hex(), idx, keysOf(got))
+			}
+		}
+		for idx := range got {
+			if !want[idx] {
+				add("C10", "account %x slot %s: entries filed under call %d, where no frame journaled this variable (journaling calls: %v)", k.acct[17:], slot.Hex(), idx, keysOfB(want))
+			}
+		}
 	}
 
 	// ---- C13: the balance journal against the balances the wrapping transfer function saw
